@@ -31,6 +31,9 @@ func init() {
 			{ID: "C03.R11", Text: "events are labelled from the table resolved at start-up: GetCollectionIDs returns exactly {id the server resolved for a name → that name} over the configured names (empty without collection support), and no table when a resolution fails (0..2 names, exhaustive)", Run: collectionIDsExact},
 			{ID: "C03.R12", Text: "the user's listener sees each event once: the simple consumer calls it exactly once (closures and deferred functions included) with the event it was given, every constructor hands the consumer on, Start gives NewStream the stored consumer and the resolved collection table", Run: func(c *Ctx, id string) { consumerChainRule(c, id) }},
 			{ID: "C03.R13", Text: "the id→name table is read-only once built: no update, delete or clear on a map[uint32]string except while filling a map made in the same function (the table is shared by all observers of a session)", Run: collectionTableReadOnly},
+			{ID: "C03.R14", Text: "the library never writes into an event: no store into a field of a gocbcore/models event struct, no element store into a slice read from one, no mutation through reflection anywhere in the module (reads through reflection are counted as the positive control)", Run: eventsNotMutated},
+			{ID: "C03.R15", Text: "a re-opened stream keeps its observer: the observers map is written only by Open and helpers only Open reaches (the persistence watermark, catch-up point and counters of a vBucket live in its observer)", Run: observerMapWriters},
+			{ID: "C03.R16", Text: "no wake-up an event waits for can be lost: a non-blocking send is only ever made on a channel that every make() creates with a buffer", Run: lossySignals},
 			{ID: "C03.R6", Text: "the delivery switch is thrown only by the stream's close: observer.closed is written only by Observer.Close, which is called only from Stream.Close (a reopened stream reuses its observer)", Run: switchOwner},
 		},
 	})
